@@ -158,6 +158,10 @@ class Check:
         self.t0 = time.time()
         self.work = WORK / prop
         self.work.mkdir(parents=True, exist_ok=True)
+        # two runs of one property's check share this directory: serialise them
+        import fcntl
+        self._lock = open(WORK / f".{prop}.lock", "w")
+        fcntl.flock(self._lock, fcntl.LOCK_EX)
         for f in self.work.glob("*"):
             if f.is_file():
                 f.unlink()
